@@ -288,6 +288,7 @@ func (x *Exec) jump(st *State, fr *Frame, to *ssa.BasicBlock) bool {
 		}
 	}
 	env.lookup = x.localResolver(st, fr, to)
+	env.visited = x.visitedOf(fr, li)
 	kind := "inv-init"
 	if backEdge {
 		kind = "inv-pres"
@@ -393,6 +394,21 @@ func (x *Exec) havocPhis(st *State, fr *Frame, b *ssa.BasicBlock) {
 		// keep pointer provenance if all edges agree (common: pointers not changed in loop)
 		fr.vals[ph] = v
 		x.wf(st, v)
+	}
+	// visited sets of map iterators advanced inside this loop
+	if li := loopAt(fr.fn, b); li != nil {
+		for _, blk := range fr.fn.Blocks {
+			if !li.blocks[blk.Index] {
+				continue
+			}
+			for _, ins := range blk.Instrs {
+				if nx, ok := ins.(*ssa.Next); ok && !nx.IsString {
+					if old := fr.iters[nx.Iter]; old != nil {
+						fr.iters[nx.Iter] = mkVar(freshName("visited"), old.sort)
+					}
+				}
+			}
+		}
 	}
 }
 
@@ -551,6 +567,12 @@ func (x *Exec) evalValue(st *State, fr *Frame, v ssa.Value) SV {
 		return sv
 	case *ssa.Range:
 		a := fr.get(x, n.X)
+		if mt, ok := a.ty.Underlying().(*types.Map); ok {
+			if fr.iters == nil {
+				fr.iters = map[ssa.Value]*Term{}
+			}
+			fr.iters[n] = ConstArr(ArrS(keySort(mt.Key()), BoolS), False)
+		}
 		return SV{ty: n.Type(), l: a.l, rng: &a}
 	case *ssa.Next:
 		return x.next(st, fr, n)
@@ -622,14 +644,28 @@ func (x *Exec) next(st *State, fr *Frame, n *ssa.Next) SV {
 	x.wf(st, k)
 	val, in := st.mapLookup(x, m, k)
 	st.assume(Implies(okv.t(), in))
+	// every key is visited exactly once; when the iteration ends every key has been visited
+	if vis := fr.iters[n.Iter]; vis != nil {
+		ks := keySort(mt.Key())
+		kt := keyTerm(k)
+		st.assume(Implies(okv.t(), Not(Select(vis, kt))))
+		j := mkBound(freshName("j"), ks)
+		dom := Select(st.region("map:"+typeKey(mt)+"#dom", ArrS(RefS, ArrS(ks, BoolS))), m.t())
+		st.assume(Implies(Not(okv.t()), Forall([]*Term{j}, Implies(And(Neq(m.t(), nilRef), Select(dom, j)), Select(vis, j)))))
+		fr.iters[n.Iter] = Ite(okv.t(), Store(vis, kt, True), vis)
+	}
 	kk := k
 	kk.ty = tt.At(1).Type()
 	vv := val
 	vv.ty = tt.At(2).Type()
-	if len(leavesOf(kk.ty)) != len(kk.l) { // blank identifier: invalid type
+	isInvalid := func(t types.Type) bool {
+		b, ok := t.(*types.Basic)
+		return ok && b.Kind() == types.Invalid
+	}
+	if isInvalid(kk.ty) { // blank identifier: invalid type
 		kk = SV{ty: kk.ty}
 	}
-	if len(leavesOf(vv.ty)) != len(vv.l) {
+	if isInvalid(vv.ty) {
 		vv = SV{ty: vv.ty}
 	}
 	return SV{ty: tt, tup: []SV{okv, kk, vv}, l: append(append(append([]*Term{}, okv.l...), kk.l...), vv.l...)}
@@ -938,4 +974,24 @@ func (x *Exec) chanAssume(st *State, fr *Frame, ch SV, val SV, commaOk bool) boo
 	}
 	st.assume(Implies(okT, t))
 	return true
+}
+
+// visitedOf returns an accessor for the visited-key set of the map iterator advanced in loop li.
+func (x *Exec) visitedOf(fr *Frame, li *loopInfo) func() (*Term, types.Type) {
+	return func() (*Term, types.Type) {
+		for _, blk := range fr.fn.Blocks {
+			if !li.blocks[blk.Index] {
+				continue
+			}
+			for _, ins := range blk.Instrs {
+				if nx, ok := ins.(*ssa.Next); ok && !nx.IsString {
+					if vis := fr.iters[nx.Iter]; vis != nil {
+						rg := nx.Iter.(*ssa.Range)
+						return vis, rg.X.Type().Underlying().(*types.Map).Key()
+					}
+				}
+			}
+		}
+		return nil, nil
+	}
 }
